@@ -740,6 +740,86 @@ def cte_lookup_obligations(rep):
             rep.undecided(oid, 'pysym', v.detail, function=fn, clause=clause)
 
 
+def nested_select_obligations(rep):
+    """get_nested_selects_plan_fnc: a nested SELECT stays inside the text sent to `main_integration` only if every table it reads belongs to that
+    integration and it touches no mindsdb object; otherwise (or when forced) it is planned on its own and replaced by a reference to its result"""
+    from mindsdb_sql.parser.ast import Select, Parameter
+    from mindsdb_sql.planner.query_planner import QueryPlanner
+    QP = 'mindsdb_sql.planner.query_planner'
+    fn = f'{QP}:QueryPlanner.get_nested_selects_plan_fnc'
+    cases = {'none': set(), 'main': {'int1'}, 'other': {'int2'}, 'main+other': {'int1', 'int2'}, 'two-others': {'int2', 'int3'}}
+    for iname, integrations in cases.items():
+        for has_mdb in (False, True):
+            for force in (False, True):
+                def run(ex, integrations=integrations, has_mdb=has_mdb, force=force):
+                    planner = SymObj({QueryPlanner}, 'planner', prov='param')
+                    planner.known_not_none = True
+                    node = SymObj({Select}, 'nested', prov='param')
+                    node.known_not_none = True
+                    node.fields.update(parentheses=True, alias=None)
+                    info = {'integrations': set(integrations), 'mdb_entities': ([SymObj(None, 'model', prov='param')] if has_mdb else []), 'predictors': [], 'user_functions': []}
+                    planner.fields['get_query_info'] = Stub(lambda ex_, a, k: info, 'get_query_info')
+                    step = SymObj(None, 'step', prov='fresh')
+                    step.known_not_none = True
+                    step.fields['result'] = SymObj(None, 'step.result', prov='fresh')
+                    planned = []
+                    planner.fields['plan_select'] = Stub(lambda ex_, a, k: (planned.append(a[0]), step)[1], 'plan_select')
+                    clo = pysym.closure_of(QP, 'QueryPlanner.get_nested_selects_plan_fnc')
+                    clo.no_stub = True
+                    visitor = ex.call_closure(clo, [planner, 'int1'], {'force': force})
+                    r = ex.call(visitor, [node], {'is_table': False, 'is_target': False, 'parent_query': None})
+                    ex.path_state.update(planned=planned, node=node, step=step)
+                    return r
+
+                def post(ex, o, integrations=integrations, has_mdb=has_mdb, force=force):
+                    if o.kind != 'return':
+                        return f'raises {getattr(o.value, "__name__", o.value)}'
+                    must_plan = force or has_mdb or not integrations <= {'int1'}
+                    planned = bool(o.state['planned'])
+                    r = o.value
+                    if must_plan and not planned:
+                        return f'a nested select reading {sorted(integrations)}' + (' and a mindsdb object' if has_mdb else '') + ' stays inside the text sent to int1'
+                    if planned:
+                        if not (isinstance(r, SymObj) and r.cls is Parameter and (r.fields.get('value') is o.state['step'].fields['result'])):
+                            return f'the planned nested select is not replaced by a reference to its result: {r!r}'
+                        if o.state['planned'][0] is not o.state['node']:
+                            return 'another query than the nested select is planned'
+                    elif r is not None:
+                        return f'an inline nested select is replaced by {r!r}'
+                    return None
+                ex = pysym.Executor()
+                import time as _t
+                t0 = _t.time()
+                try:
+                    outs = ex.explore(run)
+                    bad = next((m for m in (post(ex, o) for o in outs) if m), None)
+                    v = pysym.Verdict(FAILED, bad) if bad else (pysym.Verdict(PROVED, f'{len(outs)} path(s)') if outs else pysym.Verdict(UNDECIDED, 'no feasible path'))
+                except (Unsupported, PathLimit) as e:
+                    v = pysym.Verdict(UNDECIDED, f'{type(e).__name__}: {e}')
+                oid = f'C08.nested.{iname}.mdb{int(has_mdb)}.force{int(force)}'
+                clause = 'ensures planned separately (and replaced by Parameter(result)) if forced, or it reads a table outside main_integration, or a mindsdb object; inline nested selects are left alone'
+                if v.status == PROVED:
+                    rep.proved(oid, 'pysym', v.detail, function=fn, clause=clause, seconds=_t.time() - t0)
+                elif v.status == FAILED:
+                    rep.failed(oid, 'pysym', v.detail, function=fn, clause=clause, replay=replay_nested_two_integrations())
+                else:
+                    rep.undecided(oid, 'pysym', v.detail, function=fn, clause=clause)
+
+
+def replay_nested_two_integrations():
+    from mindsdb_sql import parse_sql
+    from mindsdb_sql.planner import plan_query
+    from mindsdb_sql.planner.steps import FetchDataframeStep
+    sql = 'SELECT * FROM int1.a WHERE x IN (SELECT b.y FROM int1.b JOIN int2.c ON b.k = c.k)'
+    try:
+        plan = plan_query(parse_sql(sql), integrations=['int1', 'int2'], default_namespace='mindsdb')
+    except Exception as e:
+        return {'input': sql, 'dialect': 'mindsdb', 'fires': False, 'observed': f'{type(e).__name__}: {e}'[:150]}
+    bad = [str(s.query) for s in plan.steps if isinstance(s, FetchDataframeStep) and s.integration == 'int1' and 'int2' in str(s.query)]
+    return {'input': sql, 'dialect': 'mindsdb', 'fires': bool(bad), 'observed': f'fetch from int1: `{bad[0][:160]}`' if bad else 'the nested select is planned on its own',
+            'expected': 'no table of int2 inside a query sent to int1'}
+
+
 def replay_cte_lookup():
     from mindsdb_sql.planner.steps import FetchDataframeStep
     sql = 'WITH b AS (SELECT id FROM int1.a) SELECT id FROM b UNION ALL SELECT id FROM int2.b'
@@ -1172,6 +1252,7 @@ def check(rep, tier):
     conjunct_obligations(rep)
     union_obligations(rep)
     cte_lookup_obligations(rep)
+    nested_select_obligations(rep)
     api_obligations(rep)
     subselect_obligations(rep)
     udf_obligations(rep)
